@@ -320,21 +320,23 @@ def het_bet_writer_matches_reader_rule(ctx, mpq, pid):
             else:
                 ctx.ok(R_hb, {"bet_hash_writer": f.path.split("::")[-1], "note": "placeholder hashes (no name hash pushed)"})
     markers = {}
+    mconsts = mpq.consts()
     for f in mpq.fn_list:
         if not f.hir or f.kind == "Closure" or "::tests::" in f.path:
             continue
         for l in hirq.find(f.hir["body"], "let"):
             if l["pat"].get("k") == "bind" and re.search(r"het_hash_table", l["pat"]["name"]) and l.get("init") is not None:
-                r_ = hirq.render(l["init"])
-                m_ = re.search(r"vec!\[(0x[0-9A-Fa-f]+|\d+)(?:u8)?; |from_elem\((0x[0-9A-Fa-f]+|\d+)", r_)
-                lit = next((hirq.lit_int(y) for y in hirq.walk(l["init"]) if y.get("k") == "lit" and "int" in y["v"]), None)
+                fe = next((y for y in hirq.walk(l["init"]) if y.get("k") == "call" and (y.get("fn") or "").endswith("vec::from_elem") and y.get("args")), None)
+                lit = hirq.const_int(fe["args"][0], mconsts) if fe is not None else None
                 if lit is not None:
                     markers[("init", f.path.split("::")[-1], l.get("ln"))] = lit
         for n_ in hirq.find(f.hir["body"], "if"):
             c_ = hirq.strip(n_["c"])
-            if c_.get("k") == "bin" and c_["op"] == "==" and re.search(r"het_hash_table\[|stored_hash", hirq.render(c_)) and hirq.lit_int(hirq.strip(c_["r"])) is not None:
-                if re.search(r"stored_hash|het_hash_table\[", hirq.render(c_["l"])) and not re.search(r"name_hash", hirq.render(c_["r"])):
-                    markers[("test", f.path.split("::")[-1], n_.get("ln"))] = hirq.lit_int(hirq.strip(c_["r"]))
+            if c_.get("k") == "bin" and c_["op"] == "==":
+                for a_, b_ in ((c_["l"], c_["r"]), (c_["r"], c_["l"])):
+                    v_ = hirq.const_int(b_, mconsts)
+                    if v_ is not None and re.search(r"stored_hash|het_hash_table\[", hirq.render(a_)):
+                        markers[("test", f.path.split("::")[-1], n_.get("ln"))] = v_
     vals = set(markers.values())
     if not (any(k_[0] == "init" for k_ in markers) and any(k_[0] == "test" and k_[1].startswith("find_file") for k_ in markers) and any(k_[0] == "test" and not k_[1].startswith("find_file") for k_ in markers)):
         ctx.bad(R_hb, "het-marker|sites", "-", "free-slot marker sites not recognised on all three sides — initial fill, writer's probe, reader's probe (%s)" % sorted(markers), "shape changed")
